@@ -233,7 +233,9 @@ fn main() {
     let tier = args.tier;
     let alphabet = years(Tier::Thorough); // the complete year alphabet in both tiers
     let ys: Vec<i64> = if tier == Tier::Thorough { (MIN_YEAR..=MAX_YEAR).collect() } else { alphabet.clone() };
-    let times = b_times_fracs(true);
+    let mut times = b_times_fracs(true);
+    // leap-second representations on a second other than :59 (what an offset with seconds, or with_second, produces)
+    times.extend([(15u32, 1_000_000_000u32), (44_129, 1_250_000_000), (0, 1_999_999_999), (86_340, 1_000_000_001)]);
     let j_date: Vec<Joined> = PADS.iter().map(|p| joined(DATE_SPECS, *p)).collect();
     let j_time: Vec<Joined> = PADS.iter().map(|p| joined(TIME_SPECS, *p)).collect();
     let all_dt: Vec<&'static str> = DATE_SPECS.iter().chain(TIME_SPECS.iter()).chain(DT_SPECS.iter()).cloned().collect();
